@@ -1344,8 +1344,9 @@ def c12(tier):
         r.merge_vh(run_vh("c12", tier, cases=300000 if th else 20000), "twin-release:")
         r.merge_vh(run_vh("c12", tier, profile="debug", cases=60000 if th else 4000, sd=seed() + 1000003), "twin-debug:")
     if th:
-        from libchecks import miri_stage
+        from libchecks import fuzz_stage, miri_stage
         miri_stage(r, "c12", "C12")
+        fuzz_stage(r, "frame", "C12")
     r.assumptions = ["'no valid request' is asserted only for inputs that are so by construction; mutated frames are judged on crash/allocation/spin/content only", "allocation verdicts use exact evidence: a request >= a length prefix the driver put on the wire", "watchdog expiry without zero-length reads in the trace is inconclusive"]
     if tier == "thorough":
         asan_stage(r, "C12")
@@ -1843,3 +1844,76 @@ def c13(tier):
     if tier == "thorough":
         asan_stage(r, "C13")
     finish(r, tier)
+
+
+# ------------------------------------------------------------------ exact replay of one hub schedule
+def replay_schedule(pid, rp):
+    """`./check C03|C10 --replay FILE`: rebuild the programs of the first witness from its label and seed,
+    re-execute exactly its list of scheduling choices and print the interleaving and the verdicts."""
+    wit = None
+    for w in rp.get("witnesses", []):
+        if w.get("detail", {}).get("choices"):
+            wit = w["detail"]
+            break
+    if wit is None:
+        return False
+    build("cli", "shim", "vh")
+    seedv = int(rp.get("seed", 1))
+    label = wit.get("label", {})
+    b3 = B3()
+    if pid == "C03":
+        if "program" in label:
+            P, contents = two_op_programs()
+            programs, initial = P[label["program"]]
+            programs = clone_programs(programs)
+            n = 2
+        else:
+            mode, idx = label["generator"], label["index"]
+            rng = SplitMix.derive(seedv, "c03", str(mode), idx)
+            n = rng.pick([2, 2, 3])
+            programs, contents, initial = gen_programs(rng, n, big_ok=rng.chance(1, 2))
+    else:
+        mode, idx = label.get("mode"), label.get("index")
+        if mode == "badput":
+            programs, contents, initial, _k = gen_bad_put(SplitMix.derive(seedv, "c10bad", idx))
+            n = 1
+        elif mode == "twinput":
+            programs, contents, initial = gen_twin_put(SplitMix.derive(seedv, "c10twin", idx))
+            n = 2
+        elif isinstance(mode, list) and mode and mode[0] == "kill":
+            n = 2
+            programs, contents, initial = gen_programs(SplitMix.derive(seedv, "c10kill", mode[1]), n, big_ok=True, kinds=["Put"] * 6 + ["Delete"] * 2 + ["Get"] * 2, nshared=1)
+        else:
+            rng = SplitMix.derive(seedv, "c10", str(mode), idx)
+            n = rng.pick([2, 2, 3])
+            programs, contents, initial = gen_programs(rng, n, big_ok=rng.chance(2, 3), kinds=["Put"] * 8 + ["Delete"] * 2 + ["Get"] * 7 + ["List"] * 2)
+    for op in [o for pr in programs for o in pr]:
+        if op.extra.get("hash_of"):
+            op.extra["declared_hash"] = b3.data(contents[op.extra["hash_of"]])
+    mon = StepMonitor(pid)
+    wd = workdir("replay")
+    run = HubRun(wd, n, programs, contents, initial, Replay(wit["choices"]), SplitMix(seedv), on_step=mon, b3=b3)
+    run.run()
+    print("replayed %d steps (%d recorded choices)%s" % (run.step, len(wit["choices"]), " INCONCLUSIVE: " + run.inconclusive if run.inconclusive else ""))
+    for st, actor, what in run.trace:
+        print("  %4d %-5s %s" % (st, actor, what))
+    print("history:")
+    for o in run.history:
+        print("  ", o.brief())
+    print("final tree:", {k: v[1] for k, v in walk_root(run.root).items()})
+    found = []
+    cn = {}
+    if pid == "C03":
+        check_c03(run, mon, found, cn)
+    else:
+        for sig, det in dedupe(mon.viol):
+            found.append((sig, det))
+        check_gets(run, found)
+    b3.close()
+    rmtree(wd)
+    if found:
+        for sig, det in found[:6]:
+            print("VIOLATION property=%s replay=%s  # reproduced: %s" % (pid, os.environ.get("VERIF_REPLAY_FILE", "?"), sig))
+        sys.exit(1)
+    print("%s replay: the recorded schedule does not violate the property on this tree" % pid)
+    sys.exit(0)
